@@ -147,11 +147,11 @@ Fixpoint each_loop (fields : arr field) (frags : arr fragdef) (rec : N -> groups
       end
   end.
 
-Definition sets_eq (st st' : mst) : Prop := m_can st' = m_can st /\ m_shape st' = m_shape st.
+Definition sets_eq (st st' : mst) : Prop := m_can st' = m_can st /\ m_shape st' = m_shape st /\ n_shape st' = n_shape st.
 
-Lemma sets_eq_refl st : sets_eq st st. Proof. split; reflexivity. Qed.
+Lemma sets_eq_refl st : sets_eq st st. Proof. repeat split; reflexivity. Qed.
 Lemma sets_eq_trans a b c : sets_eq a b -> sets_eq b c -> sets_eq a c.
-Proof. unfold sets_eq. intros [? ?] [? ?]. split; congruence. Qed.
+Proof. unfold sets_eq. intros (? & ? & ?) (? & ? & ?). repeat split; congruence. Qed.
 
 Ltac se := unfold sets_eq in *; intuition congruence.
 
@@ -284,7 +284,7 @@ Section AddFs.
   Proof.
     induction f as [|f IHf]; intros s g vs st HU Hg; [pose proof (U_nonneg vs); lia|].
     rewrite add_fs_cd_S. cbv zeta. set (st1 := count_addfscd st).
-    assert (Hse1 : sets_eq st st1) by (split; reflexivity).
+    assert (Hse1 : sets_eq st st1) by (repeat split; reflexivity).
     assert (Hm1 : m_steps st1 = m_steps st + 1) by reflexivity.
     destruct (nmem s vs) eqn:Hmem.
     - cbn [a_ok]. repeat split; try lia. exact Hg.
@@ -322,9 +322,9 @@ Section AddFs.
       destruct (add_fs_cd fields sets frags (S (S nsets)) s g nempty st1) as [g2 vs2 st2|st2|]; cbn [a_ok] in H.
       + destruct H as (Hse2 & HW2 & HU2 & Hs2 & Hgs2 & Hg2). pose proof (W_nonneg vs2).
         change (m_steps st1) with (m_steps st + 1) in Hs2.
-        split; [eapply sets_eq_trans; [|exact Hse2]; split; reflexivity|]. repeat split; try lia. exact Hg2.
+        split; [eapply sets_eq_trans; [|exact Hse2]; repeat split; reflexivity|]. repeat split; try lia. exact Hg2.
       + destruct H as (Hse2 & Hs2). change (m_steps st1) with (m_steps st + 1) in Hs2.
-        split; [eapply sets_eq_trans; [|exact Hse2]; split; reflexivity|]. lia.
+        split; [eapply sets_eq_trans; [|exact Hse2]; repeat split; reflexivity|]. lia.
       + exact H.
     - cbn [count_addfscd count_addfs m_steps]. repeat split; try lia. exact Hg.
   Qed.
@@ -393,7 +393,7 @@ Section Amortised.
   Lemma Bp_ge0 : 0 <= Bp. Proof. unfold Bp. pose proof pairsP_ge0. pose proof NI_ge0. pose proof cP_ge0. unfold cS. rewrite A_eq. nia. Qed.
 
   Lemma Phi_sets_eq st st' : sets_eq st st' -> Phi st' = Phi st + (m_steps st' - m_steps st).
-  Proof. intros [H1 H2]. unfold Phi. rewrite H1, H2. lia. Qed.
+  Proof. intros (H1 & H2 & _). unfold Phi. rewrite H1, H2. lia. Qed.
 
   Lemma inner_loop_good body x c : 0 <= c ->
     forall r st, (forall y st, In y r -> good c st (body x y st)) ->
